@@ -15,6 +15,11 @@ fn main() {
         usage();
     }
     let id = args[1].clone();
+    if id == "__child" {
+        // child-process mode for crash-injection checks: dverif __child <module> <spec-file>
+        let code = checks::child_dispatch(&args[2], &args[3]);
+        std::process::exit(code);
+    }
     let mut tier = match std::env::var("VERIF_TIER").as_deref() {
         Ok("thorough") => Tier::Thorough,
         _ => Tier::Quick,
